@@ -626,7 +626,11 @@ func (g *gen) intExpr(t *Type, d int) *E {
 			return k == KString || k == KSlice || k == KMap || k == KArray || k == KChan
 		}); p != nil {
 			fn := "len"
-			if k := p.t.under().K; (k == KSlice || k == KChan) && g.chance(25) && g.opts.on("cap") {
+			// cap of a channel only: the capacity of a slice after an append that grows it is not
+			// specified by the language (gc rounds to its size classes; `t := s[0:1:1]; t = append(t, 3)`
+			// has cap 4 under gc for []int16, 2 under Scriggo): comparing it is a false alarm, met once
+			// in a thorough run (rich-differs:goroutine-chan-closure)
+			if k := p.t.under().K; k == KChan && g.chance(25) && g.opts.on("cap") {
 				fn = "cap"
 			}
 			return tx(g.ts(t), "(", fn, "(", p.e, "))")
